@@ -601,6 +601,29 @@ fn const_bytes<'tcx>(tcx: TyCtxt<'tcx>, val: ConstValue, ty: Ty<'tcx>) -> Option
     None
 }
 
+/// Raw bytes of the allocation behind a `&'static T` constant (plain-data T such as a bit set).
+fn const_raw_pointee<'tcx>(tcx: TyCtxt<'tcx>, val: ConstValue, ty: Ty<'tcx>) -> Option<Vec<u8>> {
+    if let ty::Ref(_, inner, _) = ty.kind() {
+        if matches!(inner.kind(), ty::Adt(..) | ty::Array(..) | ty::Tuple(..)) {
+            if let ConstValue::Scalar(mir::interpret::Scalar::Ptr(ptr, _)) = val {
+                let (prov, off) = ptr.into_raw_parts();
+                let aid = prov.alloc_id();
+                if let Some(rustc_middle::mir::interpret::GlobalAlloc::Memory(alloc)) = tcx.try_get_global_alloc(aid) {
+                    let a = alloc.inner();
+                    if a.provenance().ptrs().is_empty() && a.len() <= 4096 {
+                        let start = off.bytes() as usize;
+                        let all = a.inspect_with_uninit_and_ptr_outside_interpreter(0..a.len());
+                        if start <= all.len() {
+                            return Some(all[start..].to_vec());
+                        }
+                    }
+                }
+            }
+        }
+    }
+    None
+}
+
 fn dump_body<'tcx>(tcx: TyCtxt<'tcx>, ldid: LocalDefId, body: &Body<'tcx>, promoted_of: Option<usize>) -> (J, J) {
     let did = ldid.to_def_id();
     let env = TypingEnv::post_analysis(tcx, did);
@@ -802,6 +825,8 @@ fn dump_crate<'tcx>(tcx: TyCtxt<'tcx>, name: &str, out: &str) {
                             o.set("str", J::s(s.to_string()));
                         }
                         o.set("bytes", J::Arr(b.iter().map(|x| J::Int(*x as i128)).collect()));
+                    } else if let Some(b) = const_raw_pointee(tcx, val, ty) {
+                        o.set("raw", J::Arr(b.iter().map(|x| J::Int(*x as i128)).collect()));
                     }
                 }
                 consts.push(o);
